@@ -276,6 +276,7 @@ class MemDatagramTransport(asyncio.DatagramTransport):
         self.sock = _FakeSocket()
         self.local_addr = local_addr
         self.sent: list = []
+        self.refused_broadcasts = 0
 
     def get_extra_info(self, name, default=None):
         if name == "socket":
@@ -292,6 +293,14 @@ class MemDatagramTransport(asyncio.DatagramTransport):
             return
         data = bytes(data)
         self.sent.append((data, addr))
+        if addr and addr[0] == "255.255.255.255":
+            import socket as _s
+            if not any(len(o) >= 3 and o[0] == _s.SOL_SOCKET and o[1] == _s.SO_BROADCAST and o[2] for o in self.sock.opts):
+                # the kernel refuses to send to the broadcast address from a socket without SO_BROADCAST (EACCES); asyncio's
+                # datagram transport hands the error to the protocol
+                self.refused_broadcasts += 1
+                self._loop.call_soon(self._protocol.error_received, PermissionError(13, "Permission denied"))
+                return
         self._loop.call_soon(self._net.udp_deliver, self, data, addr)
 
     def deliver(self, data: bytes, addr) -> None:
@@ -300,7 +309,10 @@ class MemDatagramTransport(asyncio.DatagramTransport):
         try:
             self._protocol.datagram_received(data, addr)
         except Exception as e:
+            # asyncio: "Fatal read error on datagram transport" - the endpoint is closed, later datagrams are lost
             self._loop.call_exception_handler({"message": "datagram_received raised", "exception": e})
+            self._closing = True
+            self._loop.call_soon(self._protocol.connection_lost, e)
 
     def close(self) -> None:
         if self._closing:
@@ -331,6 +343,10 @@ class Net:
         self.tcp_hosts[(ip, port)] = host
 
     async def tcp_connect(self, loop: VLoop, factory, host, port):
+        if not isinstance(port, int) or not 0 <= port <= 65535:
+            # what loop.create_connection() does for an IP literal with such a port (raised by socket.connect)
+            self.tcp_attempts.append((loop.time(), host, port, "overflow"))
+            raise OverflowError("connect(): port must be 0-65535.")
         policy = "accept"
         host = self.resolver.get(host, host)        # name resolution happens on every connect, as in loop.create_connection
         target = self.tcp_hosts.get((host, port))
